@@ -366,7 +366,8 @@ func (c *regexpSimplifyChecker) canCombine(x, y syntax.Expr) (threshold int, ok 
 }
 
 func (c *regexpSimplifyChecker) concatLiteral(e syntax.Expr) string {
-	if e.Op == syntax.OpConcat && c.allChars(e) {
+	// An empty alternative is OpConcat with no args; its Value is not a literal.
+	if e.Op == syntax.OpConcat && len(e.Args) != 0 && c.allChars(e) {
 		return e.Value
 	}
 	return ""
